@@ -252,7 +252,10 @@ class Run:
         e = dict(os.environ, TWH_PROP=self.prop, VERIF_SEED=str(self.seed), TWH_SCRATCH=self.dir)
         if env:
             e.update(env)
-        p = subprocess.run([binp] + args, env=e, capture_output=True, text=True, timeout=timeout)
+        try:
+            p = subprocess.run([binp] + args, env=e, capture_output=True, text=True, timeout=timeout)
+        except subprocess.TimeoutExpired:
+            raise Infra("harness %s did not finish within %d s" % (args[0], timeout))     # a timeout is never a verdict
         if p.returncode not in ok_codes:
             err = p.stderr if len(p.stderr) < 6000 else p.stderr[:3000] + "\n[...]\n" + p.stderr[-3000:]
             raise Infra("harness %s failed (exit %d): %s" % (args[0], p.returncode, err))
